@@ -125,10 +125,8 @@ def analyse(t, ob):
                 return None, "op %d %s failed: %s" % (i, k, json.dumps(o))
         if k == "get_me":
             cid[op["c"]] = o["client_id"]
-        elif k == "join_group" and op["topic"] == 2:
-            pass
-        elif k == "get_group" and op["topic"] == 2:
-            pass
+        elif k in ("join_group", "get_group") and (op["stream"], op["topic"]) != (1, 1):
+            pass                      # the same-numbered group elsewhere (second topic / second stream): judged at the end
         elif k == "join_group":
             pending = ("join", cid[op["c"]])
         elif k == "leave_group":
